@@ -362,6 +362,9 @@ def tasks(tier):
     for side in ('buy', 'sell'):
         ts.append(Task(f'trade-record.{side}', t_trade_record(side), extra=x, overrides=dict(ov)))
         ts.append(Task(f'trade-record.partial.{side}', t_trade_record_partial(side), extra=x, overrides=dict(ov)))
+    # cancel-all reaches every submitted order that is not final, in production mode too (shared with C10)
+    import props.C10 as P10
+    ts.append(Task('cancel-all', P10.t_cancel_all, extra=dict(spec_mod=P10.SPEC), overrides=dict(ov)))
     for side in ('buy', 'sell'):
         ts.append(Task(f'execute-after-partial.{side}', t_execute_after_partial(side), extra=x, overrides=dict(ov)))
     for status in ('ACTIVE', 'EXECUTED', 'CANCELED'):
